@@ -20,6 +20,14 @@ CLAIMED = {
          "structural lifecycle rules over go statements, goroutine loops, API-path channel operations, lifecycle channels and per-SSRC containers (dominators, natural loops, call-graph reachability)",
          "Decides D1-D6 for all 14 go statements, all goroutine loops, all API-path channel operations and all per-stream containers: goroutines are accounted and stoppable, callers cannot be stranded, Unbind mirrors Bind. Necessary conditions of the lifecycle property; timing is not decided. Seven genuine violations are recorded as known findings (unaccounted goroutines, missing unbind).",
          "channel identity by field/make-site; Close methods are the only shutdown sources; user-supplied writers are assumed to return"),
+ "C13": ("DESIGN.md §3 B, A3",
+         "interprocedural forward taint (retention) from caller-owned header/payload/read buffer to escaping stores, channels, goroutines and containers; store-through-parameter analysis",
+         "Decides for all 25 per-packet closures and the pacer Write methods that caller memory (or a shallow copy of it) never flows into anything that outlives the call except through a copying sanitiser, and is never written. Necessary structural condition; aliasing created inside pion/rtp is a stated limitation.",
+         "deny-list of retaining library calls; pion/rtp Clone/Marshal are fresh; summaries over CHA/VTA callees"),
+ "C04": ("DESIGN.md §3 F2,B,T,C1,A1,D5; §4 C04",
+         "pooled-buffer copy bounds (path-class sensitive, constant arithmetic), retention taint, retain/release typestate by seeded path counting, lockset table rows of the responder",
+         "Decides the clauses that make the stored copy equal what was sent and keep pooled buffers alive while referenced: bounded copies incl. RTX offset, deep copies only, exactly-once release protocol, lock discipline, forward-once. Does not decide ring-window arithmetic or RTX field values.",
+         "refcount protocol table (Get/Retain/Release, slots field) is frozen; RTPBuffer's 'not started ⇒ all slots empty' invariant is assumed for the first store"),
 }
 
 NA = {
